@@ -91,6 +91,33 @@ def check_matrix(np, sparse, ce, pp, layout, lg):
         flags = flags[2:7]
         if flags[-1]:
             bad.append(('threshold-monotone', 'a probability exceeds threshold 1.0'))
+        # the test as PageDecoder APPLIES it: a line is kept undecoded exactly when it is confident enough at the configured threshold
+        # (thresholds written as int 0, float 0.0, numpy 0.0 included), so the kept/decoded decision is monotone as well
+        if sh is shifts[0]:
+            class _Bag:
+                def best_hyp(self):
+                    return '<decoded>'
+
+            class _Dec:
+                calls = 0
+
+                def __call__(self, logits, **kw):
+                    _Dec.calls += 1
+                    return _Bag()
+            sweep = (-1.0, 0, 0.0, np.float64(0.0), 1e-12, 0.3, 0.6, 0.9, 1.0, 1.5)
+            kept = []
+            for th in sweep:
+                pd_ = pp.PageDecoder(_Dec(), line_confidence_threshold=th)
+                before = _Dec.calls
+                with warnings.catch_warnings():
+                    warnings.simplefilter('ignore')
+                    pd_.decode_line(line)
+                    want = bool(pp.line_confident_enough(pp.prepare_dense_logits(line), th))
+                kept.append(_Dec.calls == before)
+                if kept[-1] != want:
+                    bad.append(('threshold-monotone', 'PageDecoder with threshold %r %s the line, line_confident_enough says %r' % (th, 'keeps' if kept[-1] else 'decodes', want)))
+            if any(b and not a for a, b in zip(kept, kept[1:])):
+                bad.append(('threshold-monotone', 'PageDecoder keeps the line undecoded at thresholds %r: %r' % (sweep, kept)))
         results.append(res)
     a = results[0]
     # exact ties (two equal top scores in a frame, or neighbouring frames with equal best probability) make the alignment and the
